@@ -101,6 +101,19 @@ func c04Inputs(g *Gen, n int) [][]byte {
 			add([]byte(doc + "}"))
 		}
 	}
+	// chains of nested objects under one item property, 18 deep, ending in nothing: each level must be visited once
+	// (a decoder that tries a level a second time doubles its work per level)
+	for _, term := range []string{"preview", "object", "attachment", "inReplyTo", "url", "icon", "location", "tag", "context", "actor", "items", "first", "subject", "describes", "replies"} {
+		for _, leaf := range []string{"{}", "[]"} {
+			add([]byte(strings.Repeat(`{"`+term+`":`, 18) + leaf + strings.Repeat("}", 18)))
+		}
+		// (with something at the bottom the value is really nested; kept shallow because GobEncode of a nested value
+		// doubles its work per level - see DESIGN.md, observations outside the properties)
+		for _, leaf := range []string{`"https://example.com/x"`, `{"type":"Note"}`} {
+			add([]byte(strings.Repeat(`{"`+term+`":`, 9) + leaf + strings.Repeat("}", 9)))
+		}
+		add([]byte(strings.Repeat(`{"type":"Create","`+term+`":[`, 8) + "{}" + strings.Repeat("]}", 8)))
+	}
 	add(bytes.Repeat([]byte("["), 100000))
 	add(bytes.Repeat([]byte("{\"a\":"), 50000))
 	add([]byte(strings.Repeat("{\"object\":", 280) + "\"https://example.com/x\"" + strings.Repeat("}", 280)))
@@ -410,7 +423,12 @@ func runC04(seed int64, n int, tier string, outDir string) (*Report, error) {
 			}()
 			cw.Add("("+hx(in)+", "+cbool(err == nil)+")", fmt.Sprintf("input %d", ii))
 		}
+		stalled := false
+		tIn := time.Now()
 		for _, e := range entries {
+			if stalled { // the input already cost one entry point far too long: reported, not repeated 70 times
+				break
+			}
 			rep.Evaluations++
 			rep.Distinguish(fmt.Sprintf("%s|%d", e.name, ii), !json.Valid(in))
 			var v any
@@ -453,6 +471,7 @@ func runC04(seed int64, n int, tier string, outDir string) (*Report, error) {
 				}
 			}
 			if slow(dt) {
+				stalled = true
 				rep.Violate(Violation{Op: e.name, Input: fmt.Sprintf("%q", trunc(string(in), 120)), Expected: "time proportional to the input", Observed: fmt.Sprintf("%v for %d bytes", dt, len(in)), Index: ii})
 			}
 			if err != nil {
@@ -465,6 +484,9 @@ func runC04(seed int64, n int, tier string, outDir string) (*Report, error) {
 					rep.Violate(Violation{Op: e.name + " then " + why, Input: fmt.Sprintf("%q", trunc(string(in), 300)), Expected: "a decoded value can be inspected, compared, re-encoded and formatted without panicking", Observed: why, Index: ii})
 				}
 			}
+		}
+		if d := time.Since(tIn); d > 500*time.Millisecond && os.Getenv("C04_PROFILE") != "" {
+			fmt.Fprintf(os.Stderr, "slow input %d (%v): %q\n", ii, d, trunc(string(in), 100))
 		}
 		if ii < 3 {
 			rep.Sample(fmt.Sprintf("%q", trunc(string(in), 80)))
